@@ -76,14 +76,16 @@ func (a *MultiClusterSubjectAccessReviewAuthorizer) Authorize(ctx context.Contex
 		return a.decisionOnError, "", err
 	}
 
-	c, loaded := a.caches.Load(host)
+	// a host name can move to another cluster while both clusters live: the cache belongs to (cluster, host)
+	cacheKey := cluster.Cluster + "/" + host
+	c, loaded := a.caches.Load(cacheKey)
 	if !loaded {
-		c, loaded = a.caches.LoadOrStore(host, cache.NewLRUExpireCache(8192))
+		c, loaded = a.caches.LoadOrStore(cacheKey, cache.NewLRUExpireCache(8192))
 		// destry cache when cluster stopped
 		if !loaded {
 			go func() {
 				<-cluster.Context().Done()
-				a.caches.Delete(host)
+				a.caches.Delete(cacheKey)
 			}()
 		}
 	}
